@@ -57,7 +57,8 @@ func filterLocator(f Filter) Locator {
 func tryLocation(s string) (Location, bool) {
 	var parser pars.Parser
 	parser = pars.Any(parseComplement(&parser), parseRange, parsePoint)
-	result, err := parser.Parse(pars.FromString(s))
+	// The whole string is the location: "3'UTR" is a feature key, not base 3.
+	result, err := pars.Exact(parser).Parse(pars.FromString(s))
 	if err != nil {
 		return nil, false
 	}
